@@ -13,6 +13,7 @@ package main
 //	(validd A (blk d...)...)   a valid file written from Avro datums d of tidy schema A (wire.go forms)
 //	(reject why)               a damaged header: must be refused with nothing delivered
 //	raw                        no claim (blocks no writer produces); model comparison and no-panic only
+//	(biglen)                   like raw, a block declares a length nothing backs: allocation is measured
 //
 // and each m derives one or more inputs from the file:
 //
@@ -24,6 +25,7 @@ package main
 // of the derived input that differ from the file's ((i e)...). `recs`: the distinct records handed
 // to the callback (dumpVal form); `ids` refers to them ((r start n) = n consecutive ids, (x id n) = n
 // copies). res: ok | err | cberr (the callback's own error value came back) | cbwrapped | (panic msg)
+// | overalloc (more than 64 MiB allocated while reading a file that declares an unbacked length)
 // | skipped (a deflate payload changed into one that inflates to other bytes: not executed).
 
 import (
@@ -38,6 +40,7 @@ import (
 	"math"
 	"math/rand"
 	"reflect"
+	"runtime"
 	"strconv"
 	"unsafe"
 
@@ -331,11 +334,15 @@ func entryFor(codec string, p []byte) sx {
 var errSentinel = errors.New("callback failed (sentinel)")
 
 type fileRun struct {
-	t      reflect.Type
-	out    any
-	intern map[string]int
-	recs   []sx
+	t       reflect.Type
+	out     any
+	intern  map[string]int
+	recs    []sx
+	measure bool // report `overalloc` when one ReadFile allocates more than allocLimit
 }
+
+// a file of a few hundred bytes: anything near this was allocated from a declared length
+const allocLimit = 64 << 20
 
 func newFileRun(td sx) *fileRun {
 	fr := &fileRun{intern: map[string]int{}}
@@ -361,6 +368,10 @@ func (fr *fileRun) read(data []byte, failAt int) (ids []int, res sx) {
 		}
 	}()
 	idx := 0
+	var m0, m1 runtime.MemStats
+	if fr.measure {
+		runtime.ReadMemStats(&m0)
+	}
 	err := avro.ReadFile(bufio.NewReader(bytes.NewReader(data)), fr.out, func(p unsafe.Pointer, rb *avro.ResourceBank) error {
 		d := dumpVal(reflect.NewAt(fr.t, p).Elem())
 		key := d.String()
@@ -378,6 +389,12 @@ func (fr *fileRun) read(data []byte, failAt int) (ids []int, res sx) {
 		idx++
 		return nil
 	})
+	if fr.measure {
+		runtime.ReadMemStats(&m1)
+		if m1.TotalAlloc-m0.TotalAlloc > allocLimit {
+			return ids, A("overalloc")
+		}
+	}
 	switch {
 	case err == nil:
 		res = A("ok")
@@ -423,6 +440,7 @@ func execFile(op string, a []sx) sx {
 	}
 	codec, data := a[2].atom, a[3].bytes()
 	fr := newFileRun(a[0])
+	fr.measure = a[4].String() == "(reject biglen)" || a[4].String() == "(biglen)"
 	base := walkFile(data)
 	infl := T("infl")
 	for _, b := range base {
@@ -921,12 +939,12 @@ func headerVariants(c *ctx, g *genFile) {
 	rawFile(c, g.td, g.sd, "null", hdrWith(cat(refVarint(1), refVarint(-1), entries, tail)), T("reject", A("neglen")))
 	rawFile(c, g.td, g.sd, "null", hdrWith(cat(refVarint(1), lenPrefixed(eS.k), refVarint(-5), eS.v, tail)), T("reject", A("neglen")))
 	rawFile(c, g.td, g.sd, "null", hdrWith(cat(refVarint(1), refVarint(math.MinInt64), entries, tail)), T("reject", A("neglen")))
-	// lengths beyond the file (moderate: an allocation of that size succeeds, then the read fails)
-	rawFile(c, g.td, g.sd, "null", hdrWith(cat(refVarint(1), refVarint(1<<20), entries, tail)), T("reject", A("longlen")))
-	rawFile(c, g.td, g.sd, "null", hdrWith(cat(refVarint(1), lenPrefixed(eS.k), refVarint(1<<22), eS.v, tail)), T("reject", A("longlen")))
-	// lengths no allocation can satisfy
-	rawFile(c, g.td, g.sd, "null", hdrWith(cat(refVarint(1), refVarint(1<<62), entries, tail)), T("reject", A("hugelen")))
-	rawFile(c, g.td, g.sd, "null", hdrWith(cat(refVarint(1), lenPrefixed(eS.k), refVarint(math.MaxInt64), eS.v, tail)), T("reject", A("hugelen")))
+	// lengths that nothing backs, from moderate to the largest a varint can declare: an error, and
+	// (expectation `biglen`) no allocation in proportion to the declaration
+	for _, l := range []int64{1 << 20, 1 << 22, 1 << 30, 1 << 33, 1 << 40, 1 << 47, 1<<48 + 1, 1 << 62, math.MaxInt64} {
+		rawFile(c, g.td, g.sd, "null", hdrWith(cat(refVarint(1), refVarint(l), entries, tail)), T("reject", A("biglen")))
+		rawFile(c, g.td, g.sd, "null", hdrWith(cat(refVarint(1), lenPrefixed(eS.k), refVarint(l), eS.v, tail)), T("reject", A("biglen")))
+	}
 	// ten-byte and overlong varints as the map count
 	rawFile(c, g.td, g.sd, "null", hdrWith(cat(bytes.Repeat([]byte{0x80}, 10), []byte{0}, entries, tail)), T("reject", A("overflow")))
 	rawFile(c, g.td, g.sd, "null", hdrWith(cat(bytes.Repeat([]byte{0xff}, 9), []byte{0x02}, entries, tail)), T("reject", A("overflow")))
@@ -947,8 +965,10 @@ func headerVariants(c *ctx, g *genFile) {
 	// more records declared than the payload holds
 	rawFile(c, g.td, g.sd, "null", blocksFile(refVarint(int64(first.count)+3), refVarint(int64(len(payload))), payload, sync, firstFrame), A("raw"))
 	// length beyond the file; a length no allocation can satisfy
-	rawFile(c, g.td, g.sd, "null", blocksFile(firstFrame, refVarint(1), refVarint(1<<21), payload, sync), A("raw"))
-	rawFile(c, g.td, g.sd, "null", blocksFile(firstFrame, refVarint(1), refVarint(1<<62), payload, sync), T("reject", A("hugelen")))
+	for _, l := range []int64{1 << 21, 1 << 30, 1 << 33, 1 << 40, 1 << 47, 1<<48 + 1, 1 << 62, math.MaxInt64} {
+		rawFile(c, g.td, g.sd, "null", blocksFile(firstFrame, refVarint(1), refVarint(l), payload, sync), T("biglen"))
+		rawFile(c, g.td, g.sd, "null", blocksFile(refVarint(1), refVarint(l), payload, sync), T("reject", A("biglen")))
+	}
 	// overlong varints as count and as length
 	rawFile(c, g.td, g.sd, "null", blocksFile(firstFrame, bytes.Repeat([]byte{0x80}, 10), []byte{0}, payload, sync), A("raw"))
 	rawFile(c, g.td, g.sd, "null", blocksFile(firstFrame, refVarint(1), bytes.Repeat([]byte{0xff}, 9), []byte{0x7f}, payload, sync), A("raw"))
